@@ -88,8 +88,36 @@ def _is_set_true(stmts, target):
             and isinstance(stmts[1], ast.Return) and stmts[1].value is None)
 
 
+def translate_safe_max(util_path):
+    """`safe_max` of src/uberjob/_util/__init__.py -> Gallina over lists of optional times.  Trusted: the builtin `max(iterable, default=None)`
+    is py_max_default_none (None for an empty iterable, else the fold of the binary maximum from the left), a generator expression
+    `(v for v in it if v is not None)` is py_not_none (the non-None elements, in order, each produced once), and `args[0] if len(args) == 1
+    else args` makes the two call forms safe_max(iterable) / safe_max(a, b, ...) both a maximum over a list."""
+    tree = ast.parse(open(util_path).read())
+    f = _fn(tree, "safe_max")
+    _expect(not f.args.args and f.args.vararg is not None and f.args.vararg.arg == "args" and not f.args.kwonlyargs and f.args.kwarg is None
+            and not f.decorator_list, "def safe_max(*args)", f)
+    body = [st for st in f.body if not (isinstance(st, ast.Expr) and isinstance(st.value, ast.Constant))]
+    _expect(len(body) == 2, "safe_max has %d statements" % len(body), f)
+    _expect(_src(body[0]) == "iterable = args[0] if len(args) == 1 else args", "safe_max: statement 1 (one iterable or several values)", body[0])
+    r = body[1]
+    _expect(isinstance(r, ast.Return) and isinstance(r.value, ast.Call) and isinstance(r.value.func, ast.Name) and r.value.func.id == "max"
+            and len(r.value.args) == 1 and [(k.arg, _src(k.value)) for k in r.value.keywords] == [("default", "None")], "safe_max: return max(<generator>, default=None)", r)
+    g = r.value.args[0]
+    _expect(isinstance(g, ast.GeneratorExp) and len(g.generators) == 1, "safe_max: one generator expression", g)
+    c = g.generators[0]
+    _expect(isinstance(c.target, ast.Name) and isinstance(g.elt, ast.Name) and g.elt.id == c.target.id and _src(c.iter) == "iterable" and not c.is_async
+            and [_src(i) for i in c.ifs] == ["%s is not None" % c.target.id], "safe_max: (v for v in iterable if v is not None)", g)
+    return ("(* safe_max, from %s: %s *)\n"
+            "Definition py_not_none (l : list (option Z)) : list Z := flat_map (fun v => match v with Some x => x :: nil | None => nil end) l.\n"
+            "Definition py_max_default_none (l : list Z) : option Z := match l with nil => None | x :: r => Some (fold_left Z.max r x) end.\n"
+            "Definition gen_safe_max (iterable : list (option Z)) : option Z := py_max_default_none (py_not_none iterable).\n\n"
+            % (os.path.relpath(util_path, core.REPO), _src(r).replace("*)", "* )")))
+
+
 def translate(path):
     tree = ast.parse(open(path).read())
+    safe_max_text = translate_safe_max(os.path.join(os.path.dirname(os.path.dirname(os.path.abspath(path))), "_util", "__init__.py"))
     gsn = _fn(tree, "_get_stale_nodes")
     pnsa, proc = _fn(gsn, "process_no_stale_ancestor"), _fn(gsn, "process")
     b = pnsa.body
@@ -117,6 +145,7 @@ def translate(path):
             "From Coq Require Import List ZArith Bool.\nFrom UJ Require Import Cache.Logical.\nLocal Open Scope Z_scope.\n\n"
             "Definition ogt (a b : option Z) : bool := match a, b with Some x, Some y => y <? x | _, _ => false end.\n"
             "Definition oge (a b : option Z) : bool := match a, b with Some x, Some y => y <=? x | _, _ => false end.\n\n"
+            "%s"
             "(* the test of the third `if` of process_no_stale_ancestor: %s *)\n"
             "Definition gen_cond (ma : option Z) (t : Z) (fresh : option Z) (is_source : bool) : bool :=\n  %s.\n\n"
             "(* process_no_stale_ancestor: entry = None if the node has no value store, else (is_source, modified time) *)\n"
@@ -125,7 +154,7 @@ def translate(path):
             "  | Some (is_source, Some t) => if gen_cond ma t fresh is_source then (true, None) else (false, Some t)\n  end.\n\n"
             "(* process *)\nDefinition gen_process (has_stale_ancestor : bool) (entry : option (bool * option Z)) (ma fresh : option Z) : bool * option Z :=\n"
             "  if has_stale_ancestor then (true, None) else gen_no_stale_ancestor entry ma fresh.\n"
-            % (os.path.relpath(path, core.REPO), re.sub(r"\s+", " ", _src(b[5].test)).replace("*)", "* )"), cond))
+            % (os.path.relpath(path, core.REPO), safe_max_text, re.sub(r"\s+", " ", _src(b[5].test)).replace("*)", "* )"), cond))
 
 
 GEN = os.path.join(core.COQ, "gen")
@@ -135,7 +164,9 @@ def check(ctx):
     """regenerate, compile, prove the link; on failure look for a concrete decision that differs from the specification"""
     uberjob = core.use_repo()
     from uberjob._util import safe_max
-    for args, want in (((None, None), None), ((3, None, 5), 5), ((None, 2), 2), (([1, None, 4],), 4), (([],), None)):
+    gen = lambda *xs: (x for x in xs)      # noqa: E731   (the stale check passes a generator of predecessor times)
+    for args, want in (((None, None), None), ((3, None, 5), 5), ((None, 2), 2), (([1, None, 4],), 4), (([],), None), ((gen(None, 3, None, 2),), 3),
+                       ((gen(2, None),), 2), ((gen(None, None),), None), ((gen(),), None), ((gen(1, 5, None, 4),), 5), ((None, 7, None), 7)):
         if safe_max(*args) != want:
             ctx.fail("translator:safe_max", "safe_max%r = %r, the translator reads it as %r" % (args, safe_max(*args), want), {"args": repr(args)})
     src = os.path.join(core.REPO_SRC, "uberjob", "_transformations", "caching.py")
@@ -158,8 +189,8 @@ def check(ctx):
         p = subprocess.run(["timeout", "300", "coqc"] + flags + [os.path.join(gen_dir, f)], cwd=core.COQ, stdout=subprocess.PIPE, stderr=subprocess.STDOUT, text=True)
         if p.returncode != 0:
             break
-    ok = p.returncode == 0 and "Closed under the global context" in p.stdout
-    ctx.notes["translator_link_theorem"] = "UJGen.StaleLink.generated_step_is_model: %s" % ("proved, closed" if ok else "NOT proved")
+    ok = p.returncode == 0 and (p.stdout or "").count("Closed under the global context") == 3
+    ctx.notes["translator_link_theorem"] = "UJGen.StaleLink.{generated_step_is_model, generated_safe_max_is_model, generated_step_on_source_safe_max}: %s" % ("proved, closed" if ok else "NOT proved")
     if ok:
         return
     # the proof no longer goes through: search the decision table for a concrete difference
